@@ -257,23 +257,26 @@ theorem rawSetList_ok (f : Forest) (m : Meta) (its : Items) (key : Int) (ins : B
   · exact listInsert_ok f m its i l ve hf _ h
   · exact listAppend_ok f m i ve hf _ h
 
+theorem clearConsumed_ok (f : Forest) : f.clearConsumed.ok = f.ok := rfl
+
 theorem dictStore_ok (f : Forest) (m : Meta) (its : Items) (key : Key) (ve : VE)
     (hf : f.ok = true) (hits : okItems m.id m.path its = true) :
     ∀ g, dictStore Cfg.patched f m its key ve = some g → g.ok = true := by
   intro g hg
-  unfold dictStore at hg
+  unfold dictStore dictStoreCore at hg
   simp only at hg
   split at hg
   · cases hg
   cases hg
-  have hf0 : ({ f with consumed := false } : Forest).ok = true := hf
-  have hv := evalVE_spec Cfg.patched ((dictDetached its key).bind Tree.id?) ve { f with consumed := false } (some m.id)
+  have hf0 : f.clearConsumed.ok = true := hf
+  have hv := evalVE_spec Cfg.patched ((dictDetached its key).bind Tree.id?) ve f.clearConsumed (some m.id)
     (isObjKind m.kind) m.part (m.path ++ [key]) hf0
-  have h3 : (Forest.mapAt { (evalVE Cfg.patched { f with consumed := false } ((dictDetached its key).bind Tree.id?) (some m.id)
-      (isObjKind m.kind) m.part (m.path ++ [key]) ve).1 with consumed := false } m.id
+  have h3 : ((Forest.mapAt (evalVE Cfg.patched f.clearConsumed ((dictDetached its key).bind Tree.id?) (some m.id)
+      (isObjKind m.kind) m.part (m.path ++ [key]) ve).1 m.id
       (storeKey key key (adoptPartial (isObjKind m.kind) m.part
-        (evalVE Cfg.patched { f with consumed := false } ((dictDetached its key).bind Tree.id?) (some m.id)
-      (isObjKind m.kind) m.part (m.path ++ [key]) ve).2))).ok = true := by
+        (evalVE Cfg.patched f.clearConsumed ((dictDetached its key).bind Tree.id?) (some m.id)
+      (isObjKind m.kind) m.part (m.path ++ [key]) ve).2))).clearConsumed).ok = true := by
+    rw [clearConsumed_ok]
     apply mapAt_ok _ m.id _ _ (ok_of_subset hf0 hv.2)
     exact storeKey_local m.id _ _ _ (by rw [okSub_iff_okAt]; exact adopt_okAt _ _ _ _ _ hv.1)
   split
